@@ -72,11 +72,11 @@ func init() {
 				c, g, t, hh := M{}, M{}, M{}, M{}
 				keysOK := true
 				for k, e := range sn.Counters() {
-					c[renderID(e.Name(), e.Tags())] = e.Value()
+					c[c11ID(e.Name(), e.Tags())] = e.Value()
 					keysOK = keysOK && k == tally.KeyForPrefixedStringMap(e.Name(), e.Tags())
 				}
 				for k, e := range sn.Gauges() {
-					g[renderID(e.Name(), e.Tags())] = gtok(e.Value())
+					g[c11ID(e.Name(), e.Tags())] = gtok(e.Value())
 					keysOK = keysOK && k == tally.KeyForPrefixedStringMap(e.Name(), e.Tags())
 				}
 				for k, e := range sn.Timers() {
@@ -84,7 +84,7 @@ func init() {
 					for _, d := range e.Values() {
 						vs = append(vs, durTok(d))
 					}
-					t[renderID(e.Name(), e.Tags())] = vs
+					t[c11ID(e.Name(), e.Tags())] = vs
 					keysOK = keysOK && k == tally.KeyForPrefixedStringMap(e.Name(), e.Tags())
 				}
 				for k, e := range sn.Histograms() {
@@ -95,7 +95,7 @@ func init() {
 					for up, n := range e.Durations() {
 						m[dupTok(up)] = n
 					}
-					hh[renderID(e.Name(), e.Tags())] = m
+					hh[c11ID(e.Name(), e.Tags())] = m
 					keysOK = keysOK && k == tally.KeyForPrefixedStringMap(e.Name(), e.Tags())
 				}
 				return M{"c": c, "g": g, "t": t, "h": hh, "keys_ok": keysOK}
@@ -103,48 +103,60 @@ func init() {
 			desc := ""
 			for i := 0; i < nOps; i++ {
 				s := scopes[rng.Intn(len(scopes))]
-				m := []string{"m", "n"}[rng.Intn(2)]
+				// metric names incl. the empty one ("keyed by its full name and tags" also when the full name is empty)
+				m := []string{"m", "n", "", "m"}[rng.Intn(4)]
 				switch k := rng.Intn(10); {
 				case k < 2:
 					v := int64(rng.Intn(5) - 1)
-					id := renderID(qualify(s.prefix, m), s.tags)
+					id := c11ID(qualify(s.prefix, m), s.tags)
 					s.s.Counter(m).Inc(v)
 					s.mids[id] = true
 					tr.Emit(M{"e": "inc", "id": id, "v": v})
 					desc += "c"
 				case k < 4:
 					v := rng.Intn(len(gtab))
-					id := renderID(qualify(s.prefix, m+"g"), s.tags)
-					s.s.Gauge(m + "g").Update(gtab[v])
+					id := c11ID(qualify(s.prefix, c11Name(m, "g")), s.tags)
+					s.s.Gauge(c11Name(m, "g")).Update(gtab[v])
 					s.mids[id] = true
 					tr.Emit(M{"e": "upd", "id": id, "v": v})
 					desc += "g"
 				case k < 6:
 					d := c11Durs[rng.Intn(len(c11Durs))]
-					id := renderID(qualify(s.prefix, m+"t"), s.tags)
-					s.s.Timer(m + "t").Record(d)
+					id := c11ID(qualify(s.prefix, c11Name(m, "t")), s.tags)
+					s.s.Timer(c11Name(m, "t")).Record(d)
 					s.mids[id] = true
 					tr.Emit(M{"e": "rec", "id": id, "v": durTok(d)})
 					desc += "t"
 				case k < 8:
-					id := renderID(qualify(s.prefix, m+"h"), s.tags)
+					id := c11ID(qualify(s.prefix, c11Name(m, "h")), s.tags)
 					var bk tally.Buckets
 					dur := rng.Intn(2) == 0
 					if b, ok := hspecs[id]; ok {
 						bk = b
 						_, dur = b.(tally.DurationBuckets)
 					} else if dur {
-						bk = tally.DurationBuckets{time.Second, time.Millisecond, time.Second}
-						if rng.Intn(4) == 0 {
-							bk = tally.DurationBuckets{} // an explicitly empty list: one catch-all bucket
-						}
+						// several histograms of one scope tree with different lists of the same length (the tree shares one
+						// cache of bucket storage: lists with the same length and the same sum of bounds are neighbours there)
+						bk = []tally.DurationBuckets{
+							{time.Second, time.Millisecond, time.Second},
+							{}, // an explicitly empty list: one catch-all bucket
+							{10 * time.Millisecond, 40 * time.Millisecond},
+							{20 * time.Millisecond, 30 * time.Millisecond},
+							{time.Millisecond, 49 * time.Millisecond},
+							{time.Second, time.Minute, time.Millisecond},
+						}[rng.Intn(6)]
 					} else {
-						bk = tally.ValueBuckets{2, 1, 2, -1}
-						if rng.Intn(4) == 0 {
-							bk = tally.ValueBuckets{}
-						}
+						bk = []tally.ValueBuckets{
+							{2, 1, 2, -1},
+							{},
+							{1, 8},
+							{2, 4},
+							{2, 7},
+							{4, 5},
+							{0, 9},
+						}[rng.Intn(7)]
 					}
-					hg := s.s.Histogram(m+"h", bk)
+					hg := s.s.Histogram(c11Name(m, "h"), bk)
 					if _, ok := hspecs[id]; !ok {
 						hspecs[id] = bk
 						ups := []string{}
@@ -270,6 +282,22 @@ func durTok(d time.Duration) int {
 		}
 	}
 	return -99
+}
+
+// c11Name: the empty metric name stays empty for every kind
+func c11Name(m, suffix string) string {
+	if m == "" {
+		return ""
+	}
+	return m + suffix
+}
+
+// c11ID renders a metric identity for the trace; an empty full name is written as a token (ids are record fields in TLC)
+func c11ID(name string, tags map[string]string) string {
+	if name == "" {
+		name = "<empty>"
+	}
+	return renderID(name, tags)
 }
 
 func upTok(f float64) string {
